@@ -337,8 +337,14 @@ def run(pid, p, a, seed, t0, scratch):
             failed, txt = replay_once(bins[ekey(eng)], eng, path, scratch)
             replayed += 1
             if failed:
-                violations.append((path, "saved regression case fails: " + txt[-600:]))
-                break
+                # a saved case is a deterministic reproduction: it fails again when it is re-run.  A failure that two
+                # further runs do not repeat is recorded as a note, not a violation.
+                again = [replay_once(bins[ekey(eng)], eng, path, scratch) for _ in range(2)]
+                replayed += 2
+                if any(f for f, _ in again):
+                    violations.append((path, "saved regression case fails: " + txt[-600:]))
+                    break
+                notes.append("saved case %s failed once and passed on two re-runs (not counted): %s" % (os.path.relpath(path, VERIF), txt[-300:].replace("\n", " | ")))
 
     # ---- campaigns
     exclude = [f["id"] for f in open_f]
